@@ -241,7 +241,8 @@ theorem notSkip_nil : ∀ s ∈ ([] : List String), s ∈ B := by intro s hs; ca
 /-- `x = op e` -/
 theorem unaryAsgn_refines (idx : Nat) (dg : DG.Graph) (x op : String) (e : Node) (cmd : Cmd) (cls : String)
     (hx : x ≠ "") (hne : namesOk e = true)
-    (hd : (if (op == "!" || op == "sizeof") = true then some (Cmd.asgnConst x)
+    (hd : (if (op == "!" || op == "sizeof") = true then
+        (if hasSideEffect e = true then none else some (Cmd.asgnConst x))
       else match e.rmCast with
         | .const .. => if (op == "-" || op == "+") = true then some (Cmd.asgnConst x) else none
         | .id y =>
@@ -259,6 +260,8 @@ theorem unaryAsgn_refines (idx : Nat) (dg : DG.Graph) (x op : String) (e : Node)
         | none => pure (Analysis.skip idx dg [cls])) = .ok out ∧ Refines B idx dg cmd out := by
   split at hd
   · rename_i hop
+    split at hd
+    · cases hd
     cases hd
     simp only [Bool.or_eq_true, beq_iff_eq] at hop
     rcases hop with rfl | rfl
@@ -453,6 +456,8 @@ theorem compute_refines_aux0 (N : Nat) : ∀ node : Node, sizeOf node < N → No
             simp only [this, Bool.false_and, Bool.false_eq_true, if_false]
             exact ⟨_, rfl, refines_skip idx dg [] notSkip_nil⟩
       · rename_i hne
+        split at hd
+        · cases hd
         cases hd
         have : e.rmCast.isId = false := by
           cases he : e.rmCast <;> first | rfl | exact absurd he (hne _)
